@@ -10,3 +10,14 @@ func VerifNativeScript(item any, stored []byte) NativeScript {
 	}
 	return n
 }
+
+// VerifByronAddress builds a Byron (bootstrap) address whose root is the given hash, without
+// going through the Byron CBOR/CRC envelope.
+func VerifByronAddress(root Blake2b224) Address {
+	return Address{addressType: AddressTypeByron, paymentPayload: AddressPayloadKeyHash{Hash: root}}
+}
+
+// VerifByronRoot exposes the address-root computation for bootstrap witnesses.
+func VerifByronRoot(pub, chain, attrs []byte) (Blake2b224, error) {
+	return computeByronAddressRoot(pub, chain, attrs)
+}
